@@ -83,6 +83,15 @@ where
     let n = w.len() as f64;
     let sums = a.weighted_sum_axis(Axis(axis), &w).map_err(|e| err("weighted_sum_axis", format!("{:?}", e)))?;
     let means = a.weighted_mean_axis(Axis(axis), &w).map_err(|e| err("weighted_mean_axis", format!("{:?}", e)))?;
+    // a request both forms reject by panicking (or both accept) is fine; one of each is not
+    let axis_var = catch_unwind(AssertUnwindSafe(|| a.weighted_var_axis(Axis(axis), &w, ddof)));
+    let lane_var = catch_unwind(AssertUnwindSafe(|| a.lanes(Axis(axis)).into_iter().next().map(|l| l.weighted_var(&w.view(), ddof).is_ok())));
+    if axis_var.is_err() != lane_var.is_err() {
+        return Err(err("panic", format!("weighted_var_axis(ddof {:?}) {} while the whole-array routine on a lane {}", ddof, if axis_var.is_err() { "panics" } else { "returns" }, if lane_var.is_err() { "panics" } else { "returns" })));
+    }
+    if axis_var.is_err() {
+        return Ok(());
+    }
     let vars = a.weighted_var_axis(Axis(axis), &w, ddof).map_err(|e| err("weighted_var_axis", format!("{:?}", e)))?;
     let stds = a.weighted_std_axis(Axis(axis), &w, ddof).map_err(|e| err("weighted_std_axis", format!("{:?}", e)))?;
     let mut want_shape = a.shape().to_vec();
@@ -160,7 +169,11 @@ fn weighted(op: &Op) -> R {
     }
     let kind = op.aux.get(3).and_then(|a| a.first()).copied().unwrap_or(0);
     let f_order = op.aux.get(4).and_then(|a| a.first()).copied().unwrap_or(0) == 1;
-    let ddof = op.idx.first().copied().unwrap_or(0).min(4) as f64 / 4.0;
+    // 99 encodes a NaN ddof (accepted by the range assertion of the whole-array routines)
+    let ddof = match op.idx.first().copied().unwrap_or(0) {
+        99 => f64::NAN,
+        v => v.min(4) as f64 / 4.0,
+    };
     let static_dims = op.idx.get(1).copied().unwrap_or(0) == 1;
     // values are the listed integers times this factor (0.25 keeps every sum exact, the others do not)
     let scale: f64 = [0.25, 0.1, 0.001, 1.0 / 3.0][op.aux.get(5).and_then(|a| a.first()).copied().unwrap_or(0).rem_euclid(4) as usize];
